@@ -50,7 +50,7 @@ def run(ctx):
     for root, own_q in fns.items():
         f = prog.body_of(root)
         r = A.Resolver(f)
-        apps = A.call_blocks(f, A.name_endswith("Vec::<T, A>::append"))
+        apps = A.vec_tail_appends(f)
         by_recv = {}
         for b, t in apps:
             e = r.call_expr(t, b)
@@ -73,7 +73,7 @@ def run(ctx):
                 all(f.dominates(lst[i][0], lst[i + 1][0]) for i in range(len(lst) - 1))
             ctx.check(ok, "C10.1", lst[0][2], "accumulator filled as [chain so far, nested result]",
                       "accumulator filled in order %s" % kinds, f.loc(lst[0][0]))
-    ctx.floor("C10.1", "concatenation sites", sites, 10)
+    ctx.floor("C10.1", "concatenation sites", sites, 5)
     # resolve_combined_recursive: `rrs` (the chain) is its parameter; callers pass the chain found so far
     for fn, b, t in A.who_calls(prog, REC + "resolve_combined_recursive"):
         rr = A.Resolver(fn)
